@@ -163,9 +163,9 @@ func aliasFinding(it dItem, shared map[string]string) string {
 }
 
 // judgeAlias reports every difference that is not the exact shape of an active known finding.
-func judgeAlias(rec *ev.Rec, items []dItem, shared map[string]string) (bad []dItem) {
+func judgeAlias(ex *excuser, items []dItem, shared map[string]string) (bad []dItem) {
 	for _, it := range items {
-		if id := aliasFinding(it, shared); id != "" && rec.Excuse(id, true) {
+		if id := aliasFinding(it, shared); id != "" && ex.excuse(id, true) {
 			continue
 		}
 		bad = append(bad, it)
@@ -320,11 +320,12 @@ func TestC04_DeepCopy(t *testing.T) {
 		side := rapid.SampledFrom([]string{"copy", "original"}).Draw(rt, "side")
 		mode := drawMode(rt)
 		cl, nt := c04Classes(m)
-		classes := append(append(th.TreeClasses(v, m.Stat()), cl...), "op:deepcopy", "mut:"+mode, "side:"+side)
+		classes := uniq(append(append(th.TreeClasses(v, m.Stat()), cl...), "op:deepcopy", "mut:"+mode, "side:"+side))
 		rec.Case("deepcopy|"+v.Name+"|"+side+"|"+mode+"|"+m.Dump(), nt, classes...)
 		cnt.add(classes)
 		th.SampleTree(rec, v, m, "DeepCopy, mutate "+side+" ("+mode+")")
 
+		ex := newExcuser(rec)
 		orig := model.Build(m)
 		cpI, err := ygot.DeepCopy(orig)
 		if err != nil {
@@ -333,7 +334,7 @@ func TestC04_DeepCopy(t *testing.T) {
 		cp := cpI
 		var bad []dItem
 		for _, it := range treeDiff(m, model.ObserveNorm(v, cp), dOpts{}) {
-			if rec.Excuse(F50, isF50(it)) {
+			if ex.excuse(F50, isF50(it)) {
 				continue
 			}
 			bad = append(bad, it)
@@ -353,7 +354,7 @@ func TestC04_DeepCopy(t *testing.T) {
 		}
 		desc := mutate(rt, target, mode)
 		items := treeDiff(want, model.ObserveNorm(v, other), dOpts{})
-		if bad := judgeAlias(rec, items, shared); len(bad) > 0 {
+		if bad := judgeAlias(ex, items, shared); len(bad) > 0 {
 			rt.Fatalf("mutating the %s in place changed the other side of DeepCopy (variant %s)\nmutation: %s\nmemory shared by address: %s\n(a = expected, b = observed after the mutation):%s\ntree:\n%s",
 				side, v.Name, desc, sharedString(shared), joinItems(bad), m.Dump())
 		}
@@ -390,7 +391,7 @@ func TestC04_Merge(t *testing.T) {
 		dir := rapid.SampledFrom([]string{"result", "result", "a", "b", "a+b"}).Draw(rt, "side")
 		mode := drawMode(rt)
 		cl, nt := c04Classes(m)
-		classes := append(append(th.TreeClasses(v, m.Stat()), cl...), "op:merge", "mut:"+mode, "side:"+dir, fmt.Sprintf("overwrite:%v", overwrite))
+		classes := uniq(append(append(th.TreeClasses(v, m.Stat()), cl...), "op:merge", "mut:"+mode, "side:"+dir, fmt.Sprintf("overwrite:%v", overwrite)))
 		var opts []ygot.MergeOpt
 		if overwrite {
 			opts = append(opts, &ygot.MergeOverwriteExistingFields{})
@@ -422,6 +423,7 @@ func TestC04_Merge(t *testing.T) {
 				rt.Fatalf("MergeStructs changed its input %s:%s\n%s", x.n, joinItems(d), ctx())
 			}
 		}
+		ex := newExcuser(rec)
 		mr := model.ObserveNorm(v, r)
 		shA, shB := sharedMem(r, ga), sharedMem(r, gb)
 		var desc string
@@ -448,7 +450,7 @@ func TestC04_Merge(t *testing.T) {
 		}
 		for _, c := range checks {
 			items := treeDiff(c.want, model.ObserveNorm(v, c.gs), dOpts{})
-			if bad := judgeAlias(rec, items, c.shared); len(bad) > 0 {
+			if bad := judgeAlias(ex, items, c.shared); len(bad) > 0 {
 				rt.Fatalf("mutating %s of MergeStructs(a,b) in place changed %s\nmutation: %s\nmemory shared by address: %s\n(a = expected, b = observed after the mutation):%s\n%s",
 					dir, c.name, desc, sharedString(c.shared), joinItems(bad), ctx())
 			}
@@ -490,7 +492,7 @@ func simpleValK(lt *model.LType, i int, key bool) (model.Val, bool) {
 		return model.Val{K: k, U: uint64(1 + i)}, true
 	case k.Signed() && len(lt.Range) == 0:
 		return model.Val{K: k, I: int64(1 + i)}, true
-	case k == model.KBool:
+	case k == model.KBool && !key:
 		return model.Val{K: model.KBool, Bool: true}, true
 	}
 	return model.Val{}, false
